@@ -209,3 +209,22 @@ Proof.
   eexists. split; [vm_compute; reflexivity|]. vm_compute. discriminate.
 Qed.
 Print Assumptions value_div_int_amt_refuted.
+
+(* finding F61 (kept: test/unit/t_balance.cc:46,171-173 pin it): a commodity that cancels by `+ (-a)` leaves an exactly-zero
+   component in the balance, and balance equality counts components: (($5 + 3 EUR) + (-$5)) == 3 EUR is false although
+   both sides hold exactly the same quantity in every commodity *)
+Theorem balance_equality_counts_cancelled_components_refuted :
+  exists ord a o s r e,
+    v_add ord (VAmt a) (VAmt o) = Ok s /\ v_add ord s (VAmt (amt_neg a)) = Ok r /\
+    (forall c, den r c == den (VAmt o) c) /\ v_eqb r (VAmt o) = Ok e /\ e = false.
+Proof.
+  exists false, (mkAmt (5 # 1) 0 false (Some [36%Z])), (mkAmt (3 # 1) 0 false (Some [69%Z; 85%Z; 82%Z])).
+  exists (VBal [mkAmt (5 # 1) 0 false (Some [36%Z]); mkAmt (3 # 1) 0 false (Some [69%Z; 85%Z; 82%Z])]).
+  exists (VBal [mkAmt (0 # 1) 0 false (Some [36%Z]); mkAmt (3 # 1) 0 false (Some [69%Z; 85%Z; 82%Z])]).
+  exists false.
+  split; [vm_compute; reflexivity|]. split; [vm_compute; reflexivity|]. split.
+  - intros c. cbn [den bden]. unfold at_comm. cbn [acomm aq].
+    destruct (comm_eqb (Some [36%Z]) c); destruct (comm_eqb (Some [69%Z; 85%Z; 82%Z]) c); vm_compute; reflexivity.
+  - split; [vm_compute; reflexivity | reflexivity].
+Qed.
+Print Assumptions balance_equality_counts_cancelled_components_refuted.
